@@ -174,6 +174,13 @@ func (e *Engine) synth(pkgPath string) *synthPkg {
 	for _, k := range names {
 		g := e.gfields[k]
 		if g.PkgPath != pkgPath {
+			// ghost fields of imported packages: <pkgname>_<field>
+			if e.imports(pkgPath, g.PkgPath) {
+				osp := e.synth(g.PkgPath)
+				if g.sig != nil {
+					sc.Insert(types.NewFunc(token.NoPos, sp.pkg, osp.real.Name()+"_"+g.Name, g.sig))
+				}
+			}
 			continue
 		}
 		g.sig = e.checkSig(sp, "func"+g.Sig, g.Src)
@@ -195,6 +202,15 @@ func (e *Engine) synth(pkgPath string) *synthPkg {
 	for _, k := range names {
 		u := e.db.UFs[k]
 		if u.PkgPath != pkgPath {
+			// uninterpreted functions of imported packages: <pkgname>_<uf>
+			if e.imports(pkgPath, u.PkgPath) {
+				osp := e.synth(u.PkgPath)
+				if o := osp.pkg.Scope().Lookup(u.Name); o != nil {
+					if f, ok := o.(*types.Func); ok {
+						sc.Insert(types.NewFunc(token.NoPos, sp.pkg, osp.real.Name()+"_"+u.Name, f.Type().(*types.Signature)))
+					}
+				}
+			}
 			continue
 		}
 		sig := e.checkSig(sp, "func"+u.Sig, u.Src)
@@ -734,39 +750,22 @@ func (c *EvalCtx) call(n *ast.CallExpr) (string, types.Type) {
 			}
 		}
 	}
+	// uninterpreted functions of imported packages: <pkgname>_<uf>
+	if i := strings.Index(fname, "_"); i > 0 && fobj != nil && fobj.Pkg() == c.x.eng.synth(c.pkgPath).pkg {
+		for _, u := range c.x.eng.db.UFs {
+			if u.PkgPath != c.pkgPath && u.Name == fname[i+1:] && c.x.eng.imports(c.pkgPath, u.PkgPath) && c.x.eng.typesPkg(u.PkgPath).Name() == fname[:i] {
+				return c.ufCall(u, fobj.Type().(*types.Signature), n, rt)
+			}
+		}
+	}
 	// predicates and UFs of this package
 	if p, ok := c.x.eng.db.Preds[c.pkgPath+" "+fname]; ok && fobj != nil && fobj.Pkg() == c.x.eng.synth(c.pkgPath).pkg {
 		return c.predCall(p, fobj.Type().(*types.Signature), n), rt
 	}
 	if u, ok := c.x.eng.db.UFs[c.pkgPath+" "+fname]; ok && fobj != nil && fobj.Pkg() == c.x.eng.synth(c.pkgPath).pkg {
-		sig := fobj.Type().(*types.Signature)
-		var args, sorts []string
-		for i, a := range n.Args {
-			t, at := c.expr(a)
-			pt := sig.Params().At(i).Type()
-			if _, isIface := pt.Underlying().(*types.Interface); isIface {
-				t = c.x.box(c.st, t, at)
-			}
-			args = append(args, t)
-			sorts = append(sorts, vc.sortOf(pt))
-		}
-		name := "uf_" + sanitize(u.Name)
-		if !vc.ufs[name] {
-			vc.uf(name, sorts, vc.sortOf(sig.Results().At(0).Type()))
-			c.x.ufAxioms(u, name, sig)
-		}
-		if len(args) == 0 {
-			return name, rt
-		}
-		t := fmt.Sprintf("(%s %s)", name, strings.Join(args, " "))
-		if len(c.bound) == 0 {
-			for _, f := range vc.typeFacts(t, sig.Results().At(0).Type(), "", 1) {
-				vc.assume("true", f)
-			}
-		}
-		return t, rt
+		return c.ufCall(u, fobj.Type().(*types.Signature), n, rt)
 	}
-	if g, ok := c.x.eng.gfields[c.pkgPath+" "+fname]; ok && fobj != nil && fobj.Pkg() == c.x.eng.synth(c.pkgPath).pkg {
+	if g, _, ok := c.x.eng.gfieldLookup(c.pkgPath, fname); ok && fobj != nil && fobj.Pkg() == c.x.eng.synth(c.pkgPath).pkg {
 		a, at := c.expr(n.Args[0])
 		for _, d := range g.Defs {
 			if types.Identical(d.sig.Params().At(0).Type(), at) {
@@ -792,6 +791,35 @@ func (c *EvalCtx) call(n *ast.CallExpr) (string, types.Type) {
 	}
 	c.fail("unsupported call to %s", fname)
 	return "", nil
+}
+
+func (c *EvalCtx) ufCall(u *UFDecl, sig *types.Signature, n *ast.CallExpr, rt types.Type) (string, types.Type) {
+	vc := c.x.vc
+	var args, sorts []string
+	for i, a := range n.Args {
+		t, at := c.expr(a)
+		pt := sig.Params().At(i).Type()
+		if _, isIface := pt.Underlying().(*types.Interface); isIface {
+			t = c.x.box(c.st, t, at)
+		}
+		args = append(args, t)
+		sorts = append(sorts, vc.sortOf(pt))
+	}
+	name := "uf_" + sanitize(u.Name)
+	if !vc.ufs[name] {
+		vc.uf(name, sorts, vc.sortOf(sig.Results().At(0).Type()))
+		c.x.ufAxioms(u, name, sig)
+	}
+	if len(args) == 0 {
+		return name, rt
+	}
+	t := fmt.Sprintf("(%s %s)", name, strings.Join(args, " "))
+	if len(c.bound) == 0 {
+		for _, f := range vc.typeFacts(t, sig.Results().At(0).Type(), "", 1) {
+			vc.assume("true", f)
+		}
+	}
+	return t, rt
 }
 
 func (c *EvalCtx) predCall(p *Pred, sig *types.Signature, n *ast.CallExpr) string {
